@@ -105,7 +105,7 @@ quota3_h!(c07_q3_opt_same, Option<u8>, 2, 8, ty(TypeInner::Opt(ty(TypeInner::Nat
           eq_opt_u8, 1, 3 + 2, de_harness);
 // opt bool skipped at opt nat8: back-tracking (10) + 50x penalty on the skipped bool
 quota3_h!(c07_q3_opt_skip, Option<u8>, 2, 8, ty(TypeInner::Opt(ty(TypeInner::Bool))), ty(TypeInner::Opt(ty(TypeInner::Nat8))),
-          eq_opt_u8, 2, 2 + 10 + 50 * 1 + 8, de_harness);
+          eq_opt_u8, 1, 2 + 10 + 50 * 1 + 8, de_harness);
 // nat16 skipped (wire nat16 at expected opt nat8)
 quota3_h!(c07_q3_plain_skip, Option<u8>, 2, 8, ty(TypeInner::Nat16), ty(TypeInner::Opt(ty(TypeInner::Nat8))),
           eq_opt_u8, 2, 2 + 10 + 50 * 2 + 8, de_harness);
